@@ -111,29 +111,29 @@ type Terminal struct {
 	top, bot int // scroll margins (0-based, inclusive)
 	tabs     map[int]bool
 
-	Modes     map[int]bool // DEC private modes
-	AnsiModes map[int]bool
-	KeypadApp bool
-	KittyKB   []int // kitty keyboard flag stack (entries pushed by CSI > u)
-	CursorVis bool
-	CursorShape int
+	Modes        map[int]bool // DEC private modes
+	AnsiModes    map[int]bool
+	KeypadApp    bool
+	KittyKB      []int // kitty keyboard flag stack (entries pushed by CSI > u)
+	CursorVis    bool
+	CursorShape  int
 	PointerShape string
-	AppID     string
-	Title     string
+	AppID        string
+	Title        string
 
 	// clustering state for WidthCluster/WidthKitty: where the last printed cluster is
 	lastRow, lastCol int
 	lastValid        bool
 
-	Log      []LogEntry
-	Graphics []GraphicsOp
-	UB       []string // unspecified-behaviour events
-	Bells    int
-	Clipboard []string
+	Log           []LogEntry
+	Graphics      []GraphicsOp
+	UB            []string // unspecified-behaviour events
+	Bells         int
+	Clipboard     []string
 	Notifications []string
 
-	out    []byte // replies
-	p      parser
+	out     []byte // replies
+	p       parser
 	inOSC66 bool
 
 	ScrollCount      int
@@ -200,11 +200,13 @@ func (t *Terminal) screen() *screenBuf {
 }
 
 // Grid returns the active grid (not a copy).
-func (t *Terminal) Grid() [][]Cell { return t.screen().grid }
-func (t *Terminal) OnAlt() bool    { return t.onAlt }
+func (t *Terminal) Grid() [][]Cell                       { return t.screen().grid }
+func (t *Terminal) OnAlt() bool                          { return t.onAlt }
 func (t *Terminal) Cursor() (row, col int, pending bool) { return t.row, t.col, t.pending }
-func (t *Terminal) Pen() Style     { return t.pen }
-func (t *Terminal) Margins() (top, bot int) { return t.top, t.bot }
+func (t *Terminal) Pen() Style                           { return t.pen }
+func (t *Terminal) CursorVisible() bool                  { return t.CursorVis }
+func (t *Terminal) CursorStyle() int                     { return t.CursorShape }
+func (t *Terminal) Margins() (top, bot int)              { return t.top, t.bot }
 
 // Write feeds bytes; replies are queued for TakeOutput.
 func (t *Terminal) Write(b []byte) {
